@@ -1,5 +1,5 @@
 """C09 plug-in for libhost_child (T3): the `_wrapped_methods` table of ANY emitted transport, keyed by the
-transport property name.  Runs INSIDE the child.
+transport property name; and `c09_rest_session` (calls through the emitted sync REST client).  Runs INSIDE the child.
 
 op: {"op": "c09_table", "transport": "mod:Cls", "kind": "grpc" | "grpc_asyncio" | "rest" | "rest_asyncio"}
 result: {"wrapped": {property: {"timeout": t, "retry": None | {initial, maximum, multiplier, deadline, exceptions, pytype}}},
@@ -57,4 +57,48 @@ def op_c09_table(o):
     raise ValueError(kind)
 
 
-OPS = {"c09_table": op_c09_table}
+def op_c09_rest_session(o):
+    """(second deepening round) calls of the emitted SYNC REST client against the HTTP loopback with scripted status codes:
+    api-core's sleeps trapped, virtual clock, jitter pinned (or random), the `timeout=` of every HTTP request recorded at
+    the transport's session.
+    {"client": "mod:Cls", "transport": "mod:Cls", "jitter": f | None, "calls": [build_args fields + "script": [{status, body}…]]}
+    result per call: {"ok" | "raised", "server": [{path, verb}], "sleeps": […], "timeouts": [[path, t]…], "wall_s": s}"""
+    import time
+    import traceback
+    from google.auth.credentials import AnonymousCredentials
+    srv = R.HttpLoopback(None)
+    trap = R.SleepTrap()
+    trap.install(virtual_clock=True, jitter=o.get("jitter"))
+    results = []
+    try:
+        transport = R.locate(o["transport"])(host=f"127.0.0.1:{srv.port}", url_scheme="http", credentials=AnonymousCredentials())
+        client = R.locate(o["client"])(transport=transport)
+        tmo = []
+        sess = transport._session
+        orig = sess.request
+
+        def request(method, url, *a, **kw):
+            tmo.append([url.split("?")[0], kw.get("timeout")])
+            return orig(method, url, *a, **kw)
+        sess.request = request
+        for call in o["calls"]:
+            start, s0, t0 = len(srv.log), len(trap.sleeps), len(tmo)
+            w0 = time.monotonic()
+            srv.script[:] = list(call.get("script") or [])
+            try:
+                args, kw = R.build_args(call)
+                ret = getattr(client, call["method"])(*args, **kw)
+                res = {"ok": R.consume_sync(ret, call.get("consume", "value"))}
+            except BaseException as e:  # noqa
+                res = {"raised": R.exc_name(e), "msg": str(e)[:300], "trace": traceback.format_exc()[-600:]}
+            res["server"] = [{"path": x["path"], "verb": x["verb"], "time_remaining": None} for x in srv.log[start:]]
+            res["sleeps"] = trap.sleeps[s0:]
+            res["timeouts"] = tmo[t0:]
+            res["wall_s"] = time.monotonic() - w0
+            results.append(res)
+    finally:
+        srv.stop()
+    return {"calls": results}
+
+
+OPS = {"c09_table": op_c09_table, "c09_rest_session": op_c09_rest_session}
